@@ -241,7 +241,7 @@ def definition_table(fb):
     es = dict((n, i) for i, n in fb.variants("parser::parser::ExportSpec"))
     fields = [x["name"] for x in fb.adt("interpreter::interpreter::Interpreter")["variants"][0]["fields"]]
     rows = []
-    for scenario in ("exports-bound", "export-unbound"):
+    for scenario in ("exports-bound", "export-unbound", "exports-vector"):
         nloc = [0]
 
         def loc():
@@ -271,6 +271,18 @@ def definition_table(fb):
         selfv = fresh_fields(fb)
         selfv[fields.index("env")] = importer_env
         VA, VB = Val("value-of-a"), Val("value-of-b")
+        store = None
+        if scenario == "exports-vector":
+            # b is a vector the library keeps state in: what the interface hands out is that vector, not a copy of it
+            vv = dict((n, i) for i, n in fb.variants("values::Value"))
+            vr = dict((n, i) for i, n in fb.variants("values::ValueReference"))
+            store = [Val("element-0"), Val("element-1")]
+            ref = Enum(vr["Mutable"], [store])
+            ref.name, ref.adt = "Mutable", "values::ValueReference"
+            VB = Enum(vv["Vector"], [ref])
+            VB.name, VB.adt = "Vector", "values::Value"
+            VA = Enum(vv["Symbol"], ["value-of-a"])
+            VA.name, VA.adt = "Symbol", "values::Value"
         # what the library's environment binds changes as its declarations are processed: the import binds `a` (to what the imported
         # library exports), the first body statement defines `a` anew and `hidden`, the second defines `b` — the interface is what
         # the names denote when the body is done
@@ -309,7 +321,7 @@ def definition_table(fb):
         except (absint.Stuck, absint.Loop) as e:
             rows.append((scenario, {"stuck": str(e)}))
             continue
-        rows.append((scenario, {"result": res, "events": ev, "frames": frames, "importer_env": importer_env, "I1": I1, "S": (S1, S2), "VA": VA, "VB": VB,
+        rows.append((scenario, {"result": res, "events": ev, "frames": frames, "importer_env": importer_env, "I1": I1, "S": (S1, S2), "VA": VA, "VB": VB, "store": store,
                                 "export_locs": [machine.key_of(x.fields[1]) for x in exports]}))
     return f, rows
 
@@ -477,6 +489,33 @@ def rule_definition(ctx, rule_env, rule_exports):
             ctx.report(rule_env, key + "/order", "the library's declarations are processed as %s, expected the import then the body forms in "
                        "order" % [(k, repr(x)) for k, x in order], where_of(f))
         if rule_exports is None:
+            continue
+        if scenario == "exports-vector":
+            maps = [x for x in _maps(res)]
+            bb = [v for m in maps[:1] for k, v in m.d.values() if k == "bb"]
+            if getattr(res, "name", None) != "Ok" or len(bb) != 1 or not isinstance(bb[0], Enum) or getattr(bb[0], "name", None) != "Vector":
+                ctx.undecided(rule_exports, key, "cannot read what a library exporting a vector hands out (%r)" % (bb[:1] or res,), where_of(f))
+                continue
+            inner = bb[0].fields[0] if bb[0].fields else None
+            got_store = inner.fields[0] if isinstance(inner, Enum) and inner.fields else None
+            vrn = dict((i, n) for i, n in fb.variants("values::ValueReference"))
+            if isinstance(inner, Enum) and vrn.get(inner.variant) not in (None, "Mutable"):
+                # a reference of another kind cannot be the allocation the library's procedures change
+                ctx.inst(rule_exports, key, {"exported_vector_is_the_library_vector": False})
+                ctx.oblige(False)
+                ctx.report(rule_exports, key, "a library exporting a vector it keeps state in hands out a vector of the kind %s where the library's own is Mutable: "
+                           "not the library's vector (state kept inside the library is shared by everything that imports it)" % vrn.get(inner.variant), where_of(f))
+                continue
+            if not isinstance(got_store, list):
+                ctx.undecided(rule_exports, key, "cannot read the storage of the exported vector (%r)" % (inner,), where_of(f))
+                continue
+            good = got_store is d["store"] and getattr(inner, "name", None) == "Mutable"
+            ctx.inst(rule_exports, key, {"exported_vector_is_the_library_vector": good})
+            ctx.oblige(good)
+            if not good:
+                ctx.report(rule_exports, key, "a library exporting a vector it keeps state in hands out %s; expected the library's own vector "
+                           "(state kept inside the library is shared by everything that imports it)" % (
+                               "a different vector with the same elements" if got_store is not d["store"] else "the vector as %s" % getattr(inner, "name", inner)), where_of(f))
             continue
         if scenario == "exports-bound":
             maps = [x for x in _maps(res)]
